@@ -121,6 +121,9 @@ class Opts:
         s.workers = kw.get('workers', 16)
         s.abstraction = kw.get('abstraction', True)
         s.per_case_setup = kw.get('per_case_setup', False)
+        s.hard_timeout = kw.get('hard_timeout', False)   # also set z3's thread-based timeout (robust against queries that ignore rlimit)
+        s.case_wall_s = kw.get('case_wall_s', None)      # replay mode: stop exploring a case after this many seconds (bounded exploration)
+        s.split_wide_div = kw.get('split_wide_div', 0)   # bits: case-split operands of symbolic divisions at least this wide when they have <= max_enum feasible values
         s.mode = kw.get('mode', 'fork')                # 'fork': copy-on-write process per alternative; 'replay': re-execution
 
 G_TABLES = {}
@@ -733,7 +736,22 @@ class Exec:
                 elif op in ('udiv', 'urem', 'sdiv', 'srem'):
                     # division by zero is UB in LLVM; Rust guards it with an explicit check, so the
                     # divisor is non-zero on any reachable path. Check anyway.
-                    if s.check(b == z3.BitVecVal(0, bits)) != 'unsat': raise Panic('possible division by zero (IR level)')
+                    if s.opts.split_wide_div and bits >= s.opts.split_wide_div:
+                        # case split by solver enumeration: one path per feasible operand value when
+                        # there are few of them (the division then folds to a constant)
+                        for which in (0, 1):
+                            x = (a, b)[which]
+                            if is_sym(x):
+                                cv = s.choose_value(x, bits, s.opts.max_enum)
+                                if cv is not None:
+                                    if which == 0: a = z3.BitVecVal(cv, bits)
+                                    else: b = z3.BitVecVal(cv, bits)
+                        if not is_sym(a) and not is_sym(b):
+                            return s.binop(op, rt, a.as_long(), b.as_long())
+                    dz = s.check(b == z3.BitVecVal(0, bits))
+                    if dz == 'sat': raise Panic('possible division by zero (IR level)')
+                    if dz != 'unsat':
+                        raise EndPath('undecided', 'solver returned unknown for the divisor-non-zero side condition of an IR division')
                     r = {'udiv': lambda: z3.UDiv(a, b), 'urem': lambda: z3.URem(a, b), 'sdiv': lambda: a / b, 'srem': lambda: z3.SRem(a, b)}[op]()
                 else: raise NotImplementedError(op)
                 return norm(r)
@@ -908,6 +926,7 @@ class Exec:
             if sol is None:
                 sol = s.inc_solver = z3.Solver()
                 sol.set('rlimit', s.opts.query_timeout_ms * RL_PER_MS)
+                if s.opts.hard_timeout: sol.set('timeout', s.opts.query_timeout_ms)
                 s.inc_n = 0
             if s.inc_n < len(s.path):
                 sol.add(*s.path[s.inc_n:]); s.inc_n = len(s.path)
@@ -923,6 +942,7 @@ class Exec:
             return res
         sol = z3.Solver()
         sol.set('rlimit', s.opts.query_timeout_ms * RL_PER_MS)
+        if s.opts.hard_timeout: sol.set('timeout', s.opts.query_timeout_ms)
         if s.path: sol.add(*s.path)
         if extra is not None: sol.add(extra)
         r = sol.check()
@@ -2246,10 +2266,11 @@ def run_replay(mod, opts, ctl, spec):
         pending = [[]]
         npaths = 0
         hookcache = {}
+        t_case = time.time()
         while pending:
             dec = pending.pop()
             npaths += 1
-            if npaths > opts.max_paths:
+            if npaths > opts.max_paths or (opts.case_wall_s and time.time() - t_case > opts.case_wall_s):
                 rec = {'case': case['id'], 'path': 'budget', 'status': 'path-budget', 'info': 'more than %d paths (%d pending)' % (opts.max_paths, len(pending) + 1),
                        'instr': 0, 'queries': 0, 'solver_s': 0, 'unknowns': 0, 'covers': [], 'asserts': {}, 'violations': [], 'obs': [], 'fns': [], 'wall_s': 0, 'nbranch': 0}
                 os.write(ctl.out_fd, (json.dumps(rec) + '\n').encode())
